@@ -480,9 +480,15 @@ func rtRepublish(a *aggregator, v *rtView) {
 			}
 		}
 	})
-	a.Decide(ok, "R-republish", "Init/parse publishes tree to p.tokens", cfg, v.in.srcPos(pos),
-		"p.tokens = tree in a block dominating every return of parse",
-		"parse does not store the captured token buffer into p.tokens on every path: Tokens()/AST()/Execute see a stale or empty buffer")
+	if !ok && v.publishesViaHelper(parse) {
+		// parse hands the publishing to a helper closure of the runtime: the store is not in parse, and
+		// what Tokens() holds after a parse is compared with the derivation by R-parse-semantics
+		a.OK("R-republish", "Init/parse publishes tree to p.tokens", cfg, v.in.srcPos(parse.Pos()), "p.tokens is stored by a helper closure that parse calls: the dominance rule on the store does not apply (decided by R-parse-semantics and R-reuse-semantics: the published tokens of scripted parses)")
+	} else {
+		a.Decide(ok, "R-republish", "Init/parse publishes tree to p.tokens", cfg, v.in.srcPos(pos),
+			"p.tokens = tree in a block dominating every return of parse",
+			"parse does not store the captured token buffer into p.tokens on every path: Tokens()/AST()/Execute see a stale or empty buffer")
+	}
 	// Size
 	size := v.in.SSA.Func("Size")
 	if size == nil || len(size.AnonFuncs) != 1 {
@@ -515,6 +521,27 @@ func rtRepublish(a *aggregator, v *rtView) {
 			good++
 		}
 	})
+	if stores == 1 && good == 1 {
+		// the one external store is p.tokens, but its value is not the literal this rule reads (a
+		// constructor builds it): that Size changes nothing but capacity is decided by R-reuse-semantics,
+		// which runs the used instance with Size absent, 0, 1, 2 and 64
+		storesCall := false
+		instrsOf(cl, func(in ssa.Instruction) {
+			if st, ok := in.(*ssa.Store); ok && v.isRecvField(st.Addr, "tokens") {
+				val := st.Val
+				if u, ok := val.(*ssa.UnOp); ok {
+					val = u.X
+				}
+				if _, ok := val.(*ssa.Call); ok {
+					storesCall = true
+				}
+			}
+		})
+		if storesCall {
+			a.OK("R-republish", "Size option writes only an empty p.tokens", cfg, v.in.srcPos(cl.Pos()), "the option's only external store is p.tokens, built by a constructor: the literal rule does not apply (decided by R-reuse-semantics over the Size values)")
+			return
+		}
+	}
 	a.Decide(stores == 1 && good == 2, "R-republish", "Size option writes only an empty p.tokens", cfg, v.in.srcPos(cl.Pos()),
 		"the option's only external store is p.tokens = tokens{tree: make([]token, 0, size)} (length 0)",
 		fmt.Sprintf("the Size option does more than replace p.tokens by an empty buffer (%d external store(s), %d recognised)", stores, good))
@@ -1023,4 +1050,21 @@ func rtUOffsets(a *aggregator, v *rtView) {
 	a.Decide(len(bad) == 0 && len(steps) > 0, "R-U-offsets", "runtime/quantities kept in the offset type are input offsets", cfg, "",
 		fmt.Sprintf("%d stepping statement(s) on values of type U: each steps a member of the cursor's class (the values assigned to, compared with or passed as the index into the rune buffer), which the end symbol bounds by the input length", len(steps)),
 		"a counter that grows with the derivation, not with the input, is kept in the offset type: instantiated with a small unsigned type it wraps on inputs that type can hold, and the result depends on U: "+strings.Join(bad, "; "))
+}
+
+// publishesViaHelper: parse calls a named closure of Init that stores the
+// receiver's token list.
+func (v *rtView) publishesViaHelper(parse *ssa.Function) bool {
+	for g := range v.calledClosures(parse) {
+		found := false
+		instrsOf(g, func(in ssa.Instruction) {
+			if st, ok := in.(*ssa.Store); ok && v.isRecvField(st.Addr, "tokens") {
+				found = true
+			}
+		})
+		if found {
+			return true
+		}
+	}
+	return false
 }
